@@ -22,6 +22,7 @@ import (
 	"os"
 	"path/filepath"
 	"sort"
+	"strconv"
 	"strings"
 )
 
@@ -506,7 +507,37 @@ func (p *pkgInfo) checkCond(be *ast.BinaryExpr) checkRow {
 	return checkRow{stripGet(lastSel(x)), op, val}
 }
 
+// sortRows orders the rows of a fixed-layout table by start offset: the order in
+// which a function reads or writes disjoint byte ranges is immaterial, so two
+// sources that differ only in statement order give the same table. Tables with a
+// symbolic offset are left in source order.
+func sortRows(rows []fieldRow) []fieldRow {
+	keys := make([]int, len(rows))
+	for i, r := range rows {
+		src := r.lo
+		if r.field == "#loop" {
+			src = r.kind
+		}
+		k, err := strconv.Atoi(src)
+		if err != nil {
+			return rows
+		}
+		keys[i] = k
+	}
+	idx := make([]int, len(rows))
+	for i := range idx {
+		idx[i] = i
+	}
+	sort.SliceStable(idx, func(a, b int) bool { return keys[idx[a]] < keys[idx[b]] })
+	out := make([]fieldRow, len(rows))
+	for i, j := range idx {
+		out[i] = rows[j]
+	}
+	return out
+}
+
 func emitRows(w *bytes.Buffer, name string, rows []fieldRow) {
+	rows = sortRows(rows)
 	fmt.Fprintf(w, "Definition %s : list (string * string * string * string) :=\n  [", name)
 	for i, r := range rows {
 		if i > 0 {
